@@ -42,7 +42,10 @@ CheckC06(r, o, rec, out, Tc, cues) ==
       slots == ProbeSlots(sig, D, Tc, cues)
       bad(c) == {s \in slots : ProbeVerdict(sig, D, Tc, cues, s) = c}
       badBounds == {j \in 1..Len(cues) : ~CueBoundsOk(sig, D, Tc, cues[j])}
-  IN  /\ Chk(badBounds = {}, r, o, "cue_boundary_is_not_a_rounded_significant_time",
+      \* "00:04:60,000" is not a time: a minutes or seconds field of 60 or more denotes no instant at all
+      badT == {k \in 1..Len(out.lines) : out.lines[k].k = "timing" /\ out.lines[k].tv # 1}
+  IN  /\ Chk(badT = {}, r, o, "cue_time_is_not_a_time", IF badT = {} THEN <<>> ELSE <<SetMin(badT)>>)
+      /\ Chk(badBounds = {}, r, o, "cue_boundary_is_not_a_rounded_significant_time",
              IF badBounds = {} THEN <<>> ELSE <<cues[SetMin(badBounds)].b, cues[SetMin(badBounds)].e>>)
       /\ Chk(CuesOrdered(cues, out.fmt = "vtt" /\ out.lp = 1), r, o, "cues_overlap_or_out_of_order", <<>>)
       /\ \A c \in C06Clauses :
